@@ -45,7 +45,7 @@ inline std::string json_escape(const std::string &s) {
         case '\t': o += "\\t"; break;
         case '\r': o += "\\r"; break;
         default:
-            if (c < 0x20) { char b[8]; snprintf(b, sizeof b, "\\u%04x", c); o += b; }
+            if (c < 0x20 || c >= 0x7f) { char b[8]; snprintf(b, sizeof b, "\\u%04x", c); o += b; }   // keeps the output valid UTF-8 even if memory was corrupted
             else o += (char) c;
         }
     }
@@ -234,6 +234,8 @@ public:
             if (act == 2) { v.cls = "hang"; v.msg = "no progress for " + std::to_string((int) hang_limit_s) + " s; worker killed"; ++res.hangs; }
             else {
                 v.cls = "crash";
+                if (WIFEXITED(status) && WEXITSTATUS(status) == 66) v.cls = "data-race";        // TSAN_OPTIONS=exitcode=66
+                if (WIFEXITED(status) && WEXITSTATUS(status) == 67) v.cls = "sanitizer-report";  // ASAN/UBSAN exitcode=67
                 std::ostringstream os;
                 if (WIFSIGNALED(status)) os << "worker died with signal " << WTERMSIG(status);
                 else os << "worker exited with status " << WEXITSTATUS(status);
